@@ -91,6 +91,15 @@ def _run_job_uncached(cpath, job, outdir, tier='quick'):
     cmd = ['goto-cc', '-I', TOOLS, '--function', entry] + defs + [src, '-o', gb1]
     rc, out, dt = sh(cmd, 300, log); res['cmds'].append(' '.join(cmd))
     if rc != 0:
+        # a loop contract (proof script) of ANOTHER function of the unit that no longer compiles against the extracted code must not
+        # take the whole unit down: drop that function's loop contracts for this job and retry once (the job that enforces that
+        # function is then decided by its own fallback, or reported undecided)
+        m = re.search(r"In function '(\w+)':", out)
+        if m and m.group(1) != job.get('enforce') and re.search(r'loop_invariant|__CPROVER_assigns|__CPROVER_decreases', out):
+            cmd = ['goto-cc', '-I', TOOLS, '--function', entry] + defs + ['-DY_NO_LOOP_CONTRACTS_' + m.group(1), src, '-o', gb1]
+            rc, out, dt = sh(cmd, 300, log); res['cmds'].append(' '.join(cmd))
+            if rc == 0: res['note'] = f"loop contracts of {m.group(1)} do not compile against the extracted code and were dropped for this job"
+    if rc != 0:
         res['status'] = 'error'; res['detail'] = 'goto-cc failed: ' + out[-1500:]; return res
     cmd = ['goto-instrument', '--add-library', gb1, gb1]
     rc, out, dt = sh(cmd, 300, log); res['cmds'].append(' '.join(cmd))
@@ -177,8 +186,8 @@ def _tool_version():
 def run_job(cpath, job, outdir, tier='quick'):
     """memoised: the verdict of a job is a function of (emitted unit text, stub side table, job definition, stub/stub-generator
     sources, tool version). The unit is re-extracted from /repo on every run; only when that text is byte-identical to an earlier
-    run is the solver's answer reused (decided results only - never timeouts or tool errors). Y_NO_CACHE=1 disables it."""
-    if os.environ.get('Y_NO_CACHE') == '1': return _run_job_uncached(cpath, job, outdir, tier)
+    run is the solver's answer reused (decided results only - never timeouts or tool errors). OPT-IN with Y_CACHE=1 (development and seeded-change self-tests); the registered checks always run the verifier."""
+    if os.environ.get('Y_CACHE') != '1': return _run_job_uncached(cpath, job, outdir, tier)   # opt-in (development / seeded-change self-tests only)
     h = hashlib.sha256()
     h.update(open(cpath, 'rb').read())
     side = cpath + '.stubs.json'
